@@ -334,7 +334,9 @@ func returnedTimeIsHeader(c *Check, pg *PG, ok []*PState, format, field string, 
 			zero = append(zero, s)
 			continue
 		}
-		k := t.Key()
+		// the value bound by a type switch, by a comma-ok assertion and by a plain assertion of the
+		// header value is the header value
+		k := stripAsserts(t).Key()
 		match := false
 		for _, w := range want {
 			if k == w {
@@ -380,4 +382,34 @@ func fieldPath(t *Term, path ...string) *Term {
 		t = structGet(t, f)
 	}
 	return t
+}
+
+// stripAsserts: t with every assertion to the two types a COSE time header value can have
+// (time.Time after parsing, cbor.RawMessage while signing) replaced by its operand.
+func stripAsserts(t *Term) *Term {
+	if t == nil {
+		return nil
+	}
+	if t.Op == "assert" && len(t.Args) == 1 && len(t.Fields) == 0 && (t.Name == "time.Time" || strings.HasSuffix(t.Name, "cbor/v2.RawMessage")) {
+		return stripAsserts(t.Args[0])
+	}
+	if len(t.Args) == 0 {
+		return t
+	}
+	changed := false
+	args := make([]*Term, len(t.Args))
+	for i, a := range t.Args {
+		args[i] = stripAsserts(a)
+		if args[i] != a {
+			changed = true
+		}
+	}
+	if !changed {
+		return t
+	}
+	c := *t
+	c.Args = args
+	c.k = ""
+	c.av, c.avDone = nil, false
+	return &c
 }
